@@ -168,11 +168,45 @@ theorem read_empty (p : Profile) (a b : Nat) (hb : ACK_HEADER_LENGTH < b) :
   simp [readChunks, ReadMem.chunks, Nat.not_le.mpr hb, ReadMemChunks.collect,
     ReadMemChunks.next]
 
-/-- **maximum_read_length** never panics for budgets ≥ the header and is the
-budget's payload room clamped to u16. -/
-theorem maximumReadLength_ok (p : Profile) (b : Nat) (hb : ACK_HEADER_LENGTH ≤ b) :
+/-- **maximum_read_length** is total: for EVERY budget and both profiles it is the budget's payload
+room (0 when the budget cannot even hold the acknowledge header) clamped to u16; never a panic. -/
+theorem maximumReadLength_total (p : Profile) (b : Nat) :
     maximumReadLength p b = .ok (min (b - ACK_HEADER_LENGTH) U16_MAX) := by
-  simp only [maximumReadLength, subW, if_pos hb, Res.bind_ok, Res.pure_eq, Nat.min_def]
+  simp only [maximumReadLength, Nat.min_def]
+
+/-- Form used by the control-handle proofs (budget at least the header). -/
+theorem maximumReadLength_ok (p : Profile) (b : Nat) (_hb : ACK_HEADER_LENGTH ≤ b) :
+    maximumReadLength p b = .ok (min (b - ACK_HEADER_LENGTH) U16_MAX) :=
+  maximumReadLength_total p b
+
+/-- **maximum_read_length agrees with the iterator**: whenever chunking accepts the budget, the
+chunks the iterator yields for a u16 request form a partition by pieces of `maximum_read_length`
+(all but the last exactly that long) — the production `read` path, which splits its buffer by
+`maximum_read_length`, and `ReadMem::chunks` cut the same pieces. -/
+theorem maximumReadLength_is_chunk_size (p : Profile) (a n b : Nat) (hb : ACK_HEADER_LENGTH < b)
+    (hn : n ≤ U16_MAX) (ha : a + n ≤ 2 ^ 64) :
+    ∃ m cs, maximumReadLength p b = .ok m ∧ readChunks p a n b = .ok cs ∧
+      ReadPartition m a n cs := by
+  obtain ⟨cs, h1, h2⟩ := read_partition p a n b hb hn ha
+  refine ⟨_, cs, maximumReadLength_total p b, h1, ?_⟩
+  by_cases hle : b - ACK_HEADER_LENGTH ≤ U16_MAX
+  · rw [Nat.min_eq_left hle]; exact h2
+  · -- room above u16: a u16 request is a single chunk (or none)
+    have hroom : U16_MAX < b - ACK_HEADER_LENGTH := Nat.lt_of_not_le hle
+    rw [Nat.min_eq_right (Nat.le_of_lt hroom)]
+    cases cs with
+    | nil => exact h2
+    | cons c rest =>
+      rw [ReadPartition] at h2 ⊢
+      obtain ⟨h_a, h_pos, h_m, h_n, h_full, h_rest⟩ := h2
+      cases rest with
+      | nil =>
+        refine ⟨h_a, h_pos, ?_, h_n, fun h => absurd rfl h, h_rest⟩
+        simp only [U16_MAX] at hn ⊢; omega
+      | cons c2 rest2 =>
+        exfalso
+        have := h_full (by simp)
+        simp only [U16_MAX] at hn hroom; omega
 
 /-! ## Write requests -/
 
